@@ -74,7 +74,25 @@ def grad_cases():
                   ("AWGNChannel(power; call snr=tensor)", lambda: _WithCallKw(C.AWGNChannel(avg_noise_power=0.3), snr=torch.tensor([3.0])), cplx, (2, 10)),
                   ("LaplacianChannel(snr; call snr=12)", lambda: _WithCallKw(C.LaplacianChannel(snr_db=5.0), snr=12), cplx, (2, 10)),
                   ("FlatFadingChannel(rayleigh,snr; call snr=6.0)", lambda: _WithCallKw(C.RayleighFadingChannel(coherence_time=3, snr_db=10.0), snr=6.0), cplx, (2, 9))]
+    # the documented helper routes for applying constraints: apply_constraint_chain(list, x) and combine_constraints(list)(x)
+    for cplx in (False, True):
+        cases += [("apply_constraint_chain(TotalPower,PAPR)", lambda: _Chain([K.TotalPowerConstraint(2.0), K.PAPRConstraint(max_papr=2.5)], "chain"), cplx, (2, 16)),
+                  ("apply_constraint_chain(AveragePower)", lambda: _Chain([K.AveragePowerConstraint(0.7)], "chain"), cplx, (3, 12)),
+                  ("combine_constraints(PAPR,AveragePower)", lambda: _Chain([K.PAPRConstraint(max_papr=2.5), K.AveragePowerConstraint(0.7)], "combine"), cplx, (2, 16))]
     return cases
+
+
+class _Chain(torch.nn.Module):
+    def __init__(self, parts, route):
+        super().__init__()
+        from kaira.constraints import utils as U
+        self.parts = torch.nn.ModuleList(parts)
+        self.route = route
+        self.comb = U.combine_constraints(parts) if route == "combine" else None
+        self.U = U
+
+    def forward(self, x):
+        return self.comb(x) if self.comb is not None else self.U.apply_constraint_chain(list(self.parts), x)
 
 
 class _WithCallKw(torch.nn.Module):
